@@ -49,7 +49,7 @@ def run(ctx):
         break
     # black box: cached kinds through the real pipeline (configs C and D have cached kinds)
     rtlib.model_check(ctx, ["C"] if quick else ["C", "D"])
-    rbehs, rout = rtlib.drive(ctx, ["C", "D"], 80 if quick else 1600, 70 if quick else 110, name="rt15")
+    rbehs, rout = rtlib.drive(ctx, ["C", "D"], 80 if quick else 1600, 70 if quick else 110, name="rt15", hook_prop="C15")
     rtlib.judge(ctx, rbehs, rout, WHATS, "C15")
     ctx.assumptions += [
         "white box through the verif facade (type aliases only); black box through Runtime.CachedState() and controller reads",
